@@ -817,7 +817,7 @@ def run(ctx):
         "samples": [json.loads(json.dumps(c)) for c in (cases[len(corpus) + n_exh_r + 3], cases[-5])],
         "disagreements_checked": len(cases) if binary else 0,
         "by_kind": kinds,
-        "exhaustive": {"real": n_exh_r, "synthetic": n_exh_s},
+        "exhaustive_counts": {"real": n_exh_r, "synthetic": n_exh_s},
         "implementation_exceptions": {k: len(v) for k, v in crashes.items()},
         "api_statements_evaluated": len(sweep),
         "translator": json.loads((VERIF / "build" / "prodtrees.json").read_text()) if (VERIF / "build" / "prodtrees.json").exists() else None,
